@@ -1,5 +1,29 @@
 NS = "cij/core/phonon_contribution/nonshear.py"
+T = "cij/core/tasks.py"
 VARIANTS = [
+    dict(id="typestate-adiabatic-reads-first", rule="R14.7", file=T, old="""            self.calculator.modulus = self.modulus_results
+            self.calculator.modulus_rotated = self.modulus_results_rotated
+        return self.calculator.value_adiabatic""", new="""            value = self.calculator.value_adiabatic
+            self.calculator.modulus = self.modulus_results
+            self.calculator.modulus_rotated = self.modulus_results_rotated
+            return value
+        return self.calculator.value_adiabatic"""),
+    dict(id="typestate-frames-crossed", rule="R14.7", file=T, old="""            self.calculator.modulus = self.modulus_results
+            self.calculator.modulus_rotated = self.modulus_results_rotated
+        return self.calculator.value_isothermal""", new="""            self.calculator.modulus_rotated = self.modulus_results
+            self.calculator.modulus = self.modulus_results_rotated
+        return self.calculator.value_isothermal"""),
+    dict(id="equiv-typestate-helper", expect="silent", file=T, edits=[(T, """        if self.calc_type == ElasticModulusCalculationType.SHEAR:
+            self.calculator.modulus = self.modulus_results
+            self.calculator.modulus_rotated = self.modulus_results_rotated
+        return self.calculator.value_isothermal""", """        self._attach()
+        return self.calculator.value_isothermal
+
+    def _attach(self):
+        if not self.key.is_shear:
+            return
+        self.calculator.modulus_rotated = self.modulus_results_rotated
+        self.calculator.modulus = self.modulus_results""")]),
     dict(id="module-cache", file="cij/core/mode_gamma.py", old="def interpolate_mode_spline(mode_volumes, mode_freqs, v_array, order=5):\n", new="_SPLINE_CACHE = {}\n\ndef interpolate_mode_spline(mode_volumes, mode_freqs, v_array, order=5):\n    _SPLINE_CACHE[order] = v_array\n"),
     dict(id="default-settings-not-copied", file="cij/core/qha_adapter.py", old="user_settings = copy.copy(DEFAULT_SETTINGS)", new="user_settings = DEFAULT_SETTINGS"),
     dict(id="writer-registry-class-level", file="cij/io/output/results_writer.py", old="""class ResultsWriter:
